@@ -27,6 +27,7 @@ import (
 	"context"
 	"fmt"
 	"log"
+	"runtime/debug"
 	"sync/atomic"
 	"time"
 
@@ -384,6 +385,19 @@ func (rc *reportCoordinator) Close() error {
 	return nil
 }
 
+// safeCheckLogs turns a panic raised while polling (e.g. inside the injected
+// log provider) into an error. run is started with a bare go statement, so a
+// panic that left it would end the whole process.
+func (rc *reportCoordinator) safeCheckLogs(ctx context.Context) (err error) {
+	defer func() {
+		if r := recover(); r != nil {
+			err = fmt.Errorf("recovered from panic while checking logs: %v\n%s", r, debug.Stack())
+		}
+	}()
+
+	return rc.checkLogs(ctx)
+}
+
 func (rc *reportCoordinator) run() {
 	cadence := time.Second
 	timer := time.NewTimer(cadence)
@@ -397,7 +411,7 @@ func (rc *reportCoordinator) run() {
 		case <-timer.C:
 			startTime := time.Now()
 
-			if err := rc.checkLogs(ctx); err != nil {
+			if err := rc.safeCheckLogs(ctx); err != nil {
 				if ctx.Err() != nil {
 					return
 				}
